@@ -16,7 +16,7 @@ import numpy as np
 
 from .. import taps, gen
 from ..ctx import Skip, digest
-from ..snap import snap, is_obs, is_cobs
+from ..snap import snap, is_obs, is_cobs, obs_digest
 from ..compare import compare_obs, drop_null_cov
 from ..ref import dense
 
@@ -127,16 +127,18 @@ class DerivedObsMonitor(taps.Monitor):
             arr = np.asarray(data)
             flat = arr.ravel()
             snaps = []
+            held = []
             for x in flat:
                 if is_obs(x):
                     # a covariance input with an identically zero matrix carries nothing (the library's
                     # placeholder for plain numbers inside matrices): dropped on both sides
                     snaps.append(drop_null_cov(snap(x)))
+                    held.append((x, obs_digest(x)))
                 elif isinstance(x, (int, float, np.integer, np.floating)):
                     snaps.append(_num_snapshot(x))
                 else:
                     return None
-            return (arr.shape, snaps)
+            return (arr.shape, snaps, held)
         except Exception:
             return None
 
@@ -145,7 +147,13 @@ class DerivedObsMonitor(taps.Monitor):
         if token is None or exc is not None:
             ctx.count('L1_calls_not_judged')
             return
-        shape, snaps = token
+        shape, snaps, held = token
+        # an operand is used again elsewhere in the expression tree: the call must leave it as it was
+        ctx.ev()
+        for x, dg in held:
+            if obs_digest(x) != dg:
+                ctx.violation('L1:input-modified-by-the-call', {'names': list(x.names)})
+                break
         func = kwargs['func'] if 'func' in kwargs else args[0]
         kw = {k: v for k, v in kwargs.items() if k not in ('func', 'data', 'array_mode')}
         values = np.array([s['value'] for s in snaps], dtype=float).reshape(shape)
@@ -982,6 +990,27 @@ def case_explicit(ctx, rng, tier, which):
         pe.fits.least_squares(xs, ys, lambda p, x: p[0] + p[1] * x, silent=True)
     elif which == 'root':
         pe.roots.find_root(a, lambda x, d: x ** 3 - d, guess=1.0)
+    elif which == 'spectator':
+        # inputs the function does not depend on (derivative exactly zero), in the first / middle / last slot and on any layout;
+        # vector-valued functions whose outputs ignore different inputs
+        c, dd = make_pair(rng, (0.5, 2.0), (0.5, 2.0), str(rng.choice(RELATIONS)), tier)
+        pos = int(rng.integers(0, 3))
+        ins = [a, b]
+        ins.insert(pos, c)
+        i0, i1 = [k_ for k_ in range(3) if k_ != pos]
+        ctx.cell('L1x', 'spectator-slot', pos)
+        mode = int(rng.integers(0, 4))
+        if mode == 0:
+            pe.derived_observable(lambda x, **kw: x[i0] * anp.sin(x[i1]), ins)
+        elif mode == 1:
+            pe.derived_observable(lambda x, **kw: x[i0] ** 2 + np.exp(x[i1]), ins, num_grad=True)
+        elif mode == 2:
+            g = [0.0, 0.0, 0.0]
+            g[i0], g[i1] = ins[i1].value, ins[i0].value
+            pe.derived_observable(lambda x, **kw: x[i0] * x[i1], ins, man_grad=g)
+        else:
+            ins.append(dd)
+            pe.derived_observable(lambda x, **kw: anp.array([x[i0] * x[3], anp.cos(x[i1]), x[pos] / x[i0], 2.0 * x[3]]), ins)
 
 
 # ------------------------------------------------------------------------------------------
@@ -1028,7 +1057,7 @@ def plan(tier):
     p.append(('cun', 8 * m))
     p.append(('tree:same_replicas', 60 * m))
     p.append(('tree:same_configs', 60 * m))
-    for w in ('autograd_multi', 'num_grad', 'man_grad', 'matmul', 'inv', 'mixed_inputs_2d', 'fit', 'root'):
+    for w in ('autograd_multi', 'num_grad', 'man_grad', 'matmul', 'inv', 'mixed_inputs_2d', 'fit', 'root', 'spectator'):
         p.append(('x:' + w, 8 * m))
     for f in FOREIGN:
         p.append(('foreign:' + f, 8 if tier == 'quick' else 150))
